@@ -931,3 +931,15 @@ V("the dependence check in a helper that raises for collections only", "C02", "g
   extra=[("geometer/point.py", "\n\ndef _divide_by_power_of_two(array: np.ndarray, power: int) -> np.ndarray:",
           _DEP_HELPER.replace("    if result.free_indices == 0 and is_zero:\n        raise LinearDependenceError(\"Arguments are not linearly independent.\")\n", "")
           .replace("    if np.any(is_zero):", "    if result.free_indices > 0 and np.any(is_zero):"))])
+
+
+# ------------------------------------------------------------------------------------------------ pencils with the vertex at infinity, repeated arguments (E19.cr)
+OPS = "geometer/operators.py"
+_TRANSV = "        t = PlaneCollection.from_array(np.conj(from_point.array))\n        a, b, c, d = a.meet(t), b.meet(t), c.meet(t), d.meet(t)\n"
+V("concurrent lines reduced to their points at infinity, seen from the vertex", "C11", OPS, _TRANSV,
+  "        a, b, c, d = a.direction, b.direction, c.direction, d.direction\n", "E19.cr", "crossratio", quick=True)
+V("twin: the transversal scaled by two", "C11", OPS, _TRANSV,
+  "        t = PlaneCollection.from_array(2 * np.conj(from_point.array))\n        a, b, c, d = a.meet(t), b.meet(t), c.meet(t), d.meet(t)\n", "silent")
+V("the shortcut for equal arguments only after the pencil is reduced", "C11", OPS, "    if a == b:\n        return np.ones(a.shape[: a.free_indices])\n\n    if (\n", "    if (\n", "E19.cr", "crossratio",
+  extra=[(OPS, "    if a.dim > 2 or (from_point is None and a.dim == 2):\n        if not np.all(is_collinear(a, b, c, d)):",
+          "    if a == b:\n        return np.ones(a.shape[: a.free_indices])\n\n    if a.dim > 2 or (from_point is None and a.dim == 2):\n        if not np.all(is_collinear(a, b, c, d)):")])
